@@ -14,7 +14,7 @@ import random
 
 from harness import core, repo
 
-TITLES = ['Alpha', "Beta's two"]
+TITLES = ['Alpha', "Beta's {0} %s two"]          # an apostrophe, a brace pair and a percent sign: the title is data wherever the report is assembled
 
 
 def text_of(codes):
